@@ -2113,3 +2113,471 @@ Proof.
   destruct (get_tree_diff sep t1 t2 od al) as [[l'|]|e]; try discriminate.
   cbn [andb]. destruct (binary_overflow l'); [discriminate|]. intros H. exact H.
 Qed.
+
+(* ================================================================================================ *)
+(* 8. the predicate of the check holds of the model                                                   *)
+
+Definition obs_of_res (r : res (option (list Diff.onode))) : dobs :=
+  match r with
+  | Raise e => DErr (exn_code e)
+  | Ret None => DNone
+  | Ret (Some l) => DTree l
+  end.
+
+Lemma okv_eqb_refl kv : okv_eqb kv kv = true.
+Proof. unfold okv_eqb. rewrite str_eqb_refl, !val_eqb_refl. reflexivity. Qed.
+
+Lemma ms_eqb_refl_okv (a : PC15.oattrs) : ms_eqb okv_eqb a a = true.
+Proof. induction a as [|x a IH]; [reflexivity|]. cbn [ms_eqb remove_first]. rewrite okv_eqb_refl. exact IH. Qed.
+
+Lemma onode_eqb_refl n : onode_eqb n n = true.
+Proof. unfold onode_eqb. rewrite str_eqb_refl, ms_eqb_refl_okv. reflexivity. Qed.
+
+Lemma remove_first_app {A} (eqb : A -> A -> bool) x x0 : forall a b,
+  (forall y, In y a -> eqb x y = false) -> eqb x x0 = true ->
+  remove_first eqb x (a ++ x0 :: b) = Some (a ++ b).
+Proof.
+  induction a as [|y a IH]; intros b Ha Hx; cbn [app remove_first].
+  - rewrite Hx. reflexivity.
+  - rewrite (Ha y (or_introl eq_refl)). rewrite IH; [reflexivity| |exact Hx].
+    intros z Hz. apply Ha. right. exact Hz.
+Qed.
+
+Lemma ms_eqb_perm : forall (l1 l2 : list PC15.onode),
+  NoDup (map fst l2) -> Permutation l1 l2 -> ms_eqb onode_eqb l1 l2 = true.
+Proof.
+  induction l1 as [|x r IH]; intros l2 Hnd HP.
+  - apply Permutation_nil in HP. subst. reflexivity.
+  - assert (Hin : In x l2) by (eapply Permutation_in; [exact HP|left; reflexivity]).
+    apply in_split in Hin as [a [b ->]]. cbn [ms_eqb].
+    rewrite (remove_first_app onode_eqb x x a b).
+    + apply IH.
+      * rewrite map_app in *. cbn [map] in Hnd. apply NoDup_remove_1 in Hnd. exact Hnd.
+      * eapply Permutation_cons_app_inv. exact HP.
+    + intros y Hy. unfold onode_eqb. rewrite map_app in Hnd. cbn [map] in Hnd.
+      apply NoDup_remove_2 in Hnd.
+      assert (Hne : fst x <> fst y).
+      { intros E. apply Hnd. apply in_or_app. left. rewrite E. apply in_map. exact Hy. }
+      apply str_eqb_neq in Hne. rewrite Hne. reflexivity.
+    + apply onode_eqb_refl.
+Qed.
+
+Theorem model_satisfies_prop t1 t2 al od :
+  domain_C15 slash t1 t2 al = true -> lookalike_free t1 t2 = true ->
+  prop_C15 slash t1 t2 od al (obs_of_res (get_tree_diff slash t1 t2 od al)) = true.
+Proof.
+  intros Hdom Hlook. destruct (get_tree_diff_spec t1 t2 al Hdom Hlook od) as [L [E HP]].
+  rewrite E. unfold prop_C15.
+  assert (Hnd : NoDup (map fst (expected slash al (nodes_of t1) (nodes_of t2) od))).
+  { pose proof (T_HND1 t1 t2 al Hdom) as F_nd1. pose proof (T_HND2 t1 t2 al Hdom) as F_nd2.
+    pose proof (T_good1 t1 t2 al Hdom) as F_g1. pose proof (T_good2 t1 t2 al Hdom) as F_g2.
+    pose proof (T_pc1 t1) as F_pc1. pose proof (T_pc2 t2) as F_pc2. pose proof (T_look t1 t2 Hlook) as F_look.
+    assert (H : NoDup (map (fun n : str * PC15.oattrs => read_names slash (fst n))
+                         (expected slash al (nodes_of t1) (nodes_of t2) od)))
+      by (eapply expected_names_nodup; eassumption).
+    rewrite <- (map_map fst (read_names slash)) in H. apply NoDup_map_inv in H. exact H. }
+  destruct L as [|x L]; cbn [obs_of_res].
+  - apply Permutation_nil in HP. rewrite HP. reflexivity.
+  - destruct (expected slash al (nodes_of t1) (nodes_of t2) od) as [|e es] eqn:Ee.
+    + apply Permutation_sym, Permutation_nil in HP. discriminate.
+    + apply ms_eqb_perm; assumption.
+Qed.
+
+(* the same for the class-aware entry point the check calls: Node and its subclasses, any second separator *)
+Theorem model_satisfies_prop_cls t1 t2 al od sep2 :
+  domain_C15 slash t1 t2 al = true -> lookalike_free t1 t2 = true ->
+  prop_C15 slash t1 t2 od al (obs_of_res (get_tree_diff_cls false slash sep2 t1 t2 od al)) = true.
+Proof. intros. rewrite get_tree_diff_cls_node. apply model_satisfies_prop; assumption. Qed.
+
+(* BinaryNode trees: the predicate holds unless a parent of the result would get a third child *)
+Theorem model_satisfies_prop_binary t1 t2 al od sep2 :
+  domain_C15 slash t1 t2 al = true -> lookalike_free t1 t2 = true ->
+  (forall l, get_tree_diff slash t1 t2 od al = Ret (Some l) -> binary_overflow l = false) ->
+  prop_C15 slash t1 t2 od al (obs_of_res (get_tree_diff_cls true slash sep2 t1 t2 od al)) = true.
+Proof.
+  intros Hdom Hlook Hno. pose proof (model_satisfies_prop t1 t2 al od Hdom Hlook) as H.
+  unfold get_tree_diff_cls. rewrite get_tree_diff_seps_eq.
+  destruct (get_tree_diff slash t1 t2 od al) as [[l|]|e] eqn:E; try exact H.
+  cbn [andb]. rewrite (Hno l eq_refl). exact H.
+Qed.
+
+(* ================================================================================================ *)
+(* 9. attribute entries, interaction of the marks, effective attributes                               *)
+
+Lemma attr_val_absent a (at_ : attrs) : (forall v, ~ In (a, v) at_) -> attr_val a at_ = VNone.
+Proof.
+  intros H. unfold attr_val. destruct (find (fun kv => str_eqb (fst kv) a) at_) as [[k v]|] eqn:E; [|reflexivity].
+  apply find_some in E as [Hin Hk]. cbn in Hk. apply str_eqb_eq in Hk. subst. exfalso. exact (H v Hin).
+Qed.
+
+Lemma attr_val_present a v (at_ : attrs) : NoDup (map fst at_) -> In (a, v) at_ -> attr_val a at_ = v.
+Proof.
+  induction at_ as [|[k w] l IH]; intros Hnd Hin; [contradiction|].
+  cbn [map fst] in Hnd. inversion Hnd as [|? ? Hk Hnd']; subst.
+  unfold attr_val. cbn [find fst]. destruct Hin as [E|Hin].
+  - inversion E; subst. rewrite str_eqb_refl. reflexivity.
+  - destruct (str_eqb k a) eqn:Ek.
+    + apply str_eqb_eq in Ek. subst. exfalso. apply Hk. apply (in_map fst) in Hin. exact Hin.
+    + apply IH; assumption.
+Qed.
+
+Section Clauses2.
+  Variables (t1 t2 : tree) (al : list str).
+  Hypothesis Hdom : domain_C15 slash t1 t2 al = true.
+  Hypothesis Hlook : lookalike_free t1 t2 = true.
+  Variables (od : bool) (L : list Diff.onode).
+  Hypothesis Hout : get_tree_diff slash t1 t2 od al = Ret (Some L).
+
+  Notation N1 := (nodes_of t1).
+  Notation N2 := (nodes_of t2).
+  Notation st := (status al (nodes_of t1) (nodes_of t2)).
+
+  (* a returned node that exists in both trees carries, in the order of attr_list and without repetition,
+     exactly the listed attributes whose values differ, each with (value in tree, value in other_tree);
+     equal values give no entry; all differing attributes sit on the one node of that path *)
+  Theorem changed_entries s at_ a1 a2 :
+    In (s, at_) L -> In (read_names slash s, a1) N1 -> In (read_names slash s, a2) N2 ->
+    (forall a x y, In (a, (x, y)) at_ <->
+                   In a al /\ x = attr_val a a1 /\ y = attr_val a a2 /\ val_eqb x y = false) /\
+    map fst at_ = filter (fun a => negb (val_eqb (attr_val a a1) (attr_val a a2))) al /\
+    (at_ <> [] <-> read_mark slash s = MChg).
+  Proof.
+    intros Hin I1 I2.
+    pose proof (T_HND1 t1 t2 al Hdom) as F1. pose proof (T_HND2 t1 t2 al Hdom) as F2.
+    destruct (out_to_path t1 t2 al Hdom Hlook od L Hout s at_ Hin) as [Hp [_ [Em [_ Ea]]]].
+    rewrite (node_attrs_chg al N1 N2 F1 F2 _ a1 a2 I1 I2) in Ea. subst at_.
+    split; [intros a x y; apply diff_attrs_in|]. split; [apply diff_attrs_keys_gen|].
+    rewrite Em. split.
+    - intros Hne. apply (st_chg_iff al N1 N2 F1 F2). exists a1, a2. auto.
+    - intros Hs. apply (st_chg_iff al N1 N2 F1 F2) in Hs as [b1 [b2 [J1 [J2 Hd]]]].
+      apply (lookup_nodup _ _ _ F1) in I1, J1. apply (lookup_nodup _ _ _ F2) in I2, J2.
+      rewrite I1 in J1. rewrite I2 in J2. inversion J1; inversion J2; subst. exact Hd.
+  Qed.
+
+  (* a (-) / (+) node is never (~) as well: it exists in one tree only, its displayed name carries that
+     one marker, and it has no attribute entries *)
+  Theorem structure_marks_plain s at_ :
+    In (s, at_) L -> read_mark slash s = MRem \/ read_mark slash s = MAdd ->
+    at_ = [] /\
+    ~ (In (read_names slash s) (map fst N1) /\ In (read_names slash s) (map fst N2)) /\
+    s = path_name slash (map (fun q => last q [] ++ mark_suffix (st q)) (inits (read_names slash s))).
+  Proof.
+    intros Hin Hm.
+    destruct (out_to_path t1 t2 al Hdom Hlook od L Hout s at_ Hin) as [Hp [_ [Em [_ Ea]]]].
+    split; [|split].
+    - subst at_. apply node_attrs_unmarked. rewrite <- Em. destruct Hm as [-> | ->]; discriminate.
+    - rewrite Em in Hm. intros [H1 H2]. destruct Hm as [Hm|Hm]; [apply st_rem in Hm|apply st_add in Hm]; tauto.
+    - apply (out_in t1 t2 al Hdom Hlook od L Hout) in Hin as [p [Hp' [_ [Es _]]]].
+      assert (En : read_names slash s = p).
+      { rewrite Es. eapply read_names_shown;
+          [apply (T_good1 t1 t2 al Hdom)|apply (T_good2 t1 t2 al Hdom)|apply T_pc1|apply T_pc2|apply (T_look t1 t2 Hlook)|exact Hp']. }
+      rewrite En. exact Es.
+  Qed.
+
+  (* with only_diff an unmarked returned node is an ancestor of a marked node, is displayed by its plain
+     name and has no attribute entries *)
+  Theorem only_diff_unmarked_ancestor s at_ :
+    od = true -> In (s, at_) L -> st (read_names slash s) = MSame ->
+    read_mark slash s = MSame /\ at_ = [] /\
+    exists q r, r <> [] /\ (In q (map fst N1) \/ In q (map fst N2)) /\ st q <> MSame /\
+                q = read_names slash s ++ r.
+  Proof.
+    intros Hod Hin Hs.
+    destruct (out_to_path t1 t2 al Hdom Hlook od L Hout s at_ Hin) as [Hp [Hk [Em [_ Ea]]]].
+    split; [rewrite Em; exact Hs|]. split.
+    - subst at_. apply node_attrs_unmarked. rewrite Hs. discriminate.
+    - rewrite Hod in Hk. apply kept_only_diff in Hk as [q [r [Hq [Hq' E]]]].
+      exists q, r. split; [|split; [apply in_all; exact Hq|split; assumption]].
+      intros ->. rewrite app_nil_r in E. subst q. contradiction.
+  Qed.
+End Clauses2.
+
+(* attributes enter only as the function a |-> get_attr a node on the listed names: replacing every node's
+   attributes by that function's graph (the "effective attributes", however the class resolves them:
+   instance dict, property, class-level default, built-in is_leaf / depth) changes nothing *)
+Fixpoint restrict_attrs (al : list str) (t : tree) : tree :=
+  match t with
+  | T g n a ks => T g n (map (fun k => (k, get_attr k a)) al) (map (restrict_attrs al) ks)
+  end.
+
+Lemma get_attr_graph k a : forall l, In k l -> get_attr k (map (fun b => (b, get_attr b a)) l) = get_attr k a.
+Proof.
+  induction l as [|b l IH]; intros Hin; [contradiction|].
+  unfold get_attr at 1. cbn [map find fst]. destruct (str_eqb b k) eqn:E.
+  - apply str_eqb_eq in E. subst. reflexivity.
+  - destruct Hin as [->|Hin]; [rewrite str_eqb_refl in E; discriminate|]. apply IH. exact Hin.
+Qed.
+
+Lemma table_from_restrict sep al (t : tree) : forall pre,
+  table_from sep al pre (restrict_attrs al t) = table_from sep al pre t.
+Proof.
+  induction t as [g n a ks IH] using tree_ind'. intros pre.
+  cbn [restrict_attrs table_from]. f_equal.
+  - f_equal. apply map_ext_in. intros k Hk. apply get_attr_graph. exact Hk.
+  - induction ks as [|k ks IHk]; [reflexivity|].
+    inversion IH as [|? ? Hk Hks]; subst. cbn [map flat_map]. rewrite Hk, IHk by exact Hks. reflexivity.
+Qed.
+
+Theorem tables_determine_result sep t1 t2 t1' t2' od al :
+  table sep al t1 = table sep al t1' -> table sep al t2 = table sep al t2' ->
+  get_tree_diff sep t1 t2 od al = get_tree_diff sep t1' t2' od al.
+Proof. intros E1 E2. unfold get_tree_diff, marked_rows. rewrite E1, E2. reflexivity. Qed.
+
+Theorem effective_attrs_only sep t1 t2 od al :
+  get_tree_diff sep (restrict_attrs al t1) (restrict_attrs al t2) od al = get_tree_diff sep t1 t2 od al.
+Proof. apply tables_determine_result; apply table_from_restrict. Qed.
+
+(* ================================================================================================ *)
+(* 10. separators other than "/": exactly when the call raises (known finding K4-C15)                  *)
+
+(* the strings get_tree_diff hands to dataframe_to_tree *)
+Definition kept_paths (sep : str) (t1 t2 : tree) (od : bool) (al : list str) : list str :=
+  let rows := marked_rows sep al t1 t2 in
+  map jpath (filter (keep_row od (map fst (changes_from 0 al rows))) rows).
+
+Definition sfree (s : str) : Prop := s <> [] /\ cfree 47%N s.
+
+Lemma join_chars x sp : forall l, In x (join sp l) -> In x sp \/ exists q, In q l /\ In x q.
+Proof.
+  induction l as [|a l IH]; intros H; [contradiction|].
+  destruct l as [|b l].
+  - right. exists a. split; [left; reflexivity|exact H].
+  - rewrite join_cons in H. apply in_app_or in H as [H|H]; [right; exists a; split; [left; reflexivity|exact H]|].
+    apply in_app_or in H as [H|H]; [left; exact H|].
+    destruct (IH H) as [H'|[q [Hq Hx]]]; [left; exact H'|right; exists q; split; [right; exact Hq|exact Hx]].
+Qed.
+
+Lemma suffix_parts_free sep rem add : forall todo done,
+  Forall (cfree 47%N) todo ->
+  Forall (cfree 47%N) (suffix_parts sep rem add done todo)
+  /\ length (suffix_parts sep rem add done todo) = length todo.
+Proof.
+  induction todo as [|x todo IH]; intros done HF; [split; [constructor|reflexivity]|].
+  inversion HF as [|? ? Hx HF']; subst. cbn [suffix_parts length]. destruct (IH (done ++ [x]) HF') as [H1 H2].
+  split; [|rewrite H2; reflexivity]. constructor; [|exact H1].
+  assert (Hm : cfree 47%N sfx_minus) by (intros H; cbn in H; repeat (destruct H as [H|H]; [discriminate|]); exact H).
+  assert (Hp : cfree 47%N sfx_plus) by (intros H; cbn in H; repeat (destruct H as [H|H]; [discriminate|]); exact H).
+  destruct (memstr _ rem); [|destruct (memstr _ add)]; try exact Hx;
+    intros Hin; apply in_app_or in Hin as [Hin|Hin]; auto.
+Qed.
+
+(* a marked path of a tree path with names free of c and of "/" is non-empty and contains no "/" *)
+Lemma marked_sfree c rem add p :
+  c <> 47%N -> p <> [] -> Forall (cfree c) p -> Forall (cfree 47%N) p ->
+  sfree (add_suffix [c] rem add (path_name [c] p)).
+Proof.
+  intros Hc Hne Fc Fs. unfold add_suffix. rewrite split_path_name by assumption.
+  destruct (suffix_parts_free [c] rem add ([] :: p) []) as [HF Hlen].
+  { constructor; [apply cfree_nil|exact Fs]. }
+  destruct (suffix_parts [c] rem add [] ([] :: p)) as [|f rest] eqn:E; [discriminate|].
+  cbn [length] in Hlen. destruct rest as [|g rest]; [destruct p; [contradiction|discriminate]|].
+  split.
+  - rewrite join_cons. intros H. apply app_eq_nil in H as [_ H]. discriminate.
+  - intros Hin. apply join_chars in Hin as [Hin|[q [Hq Hin]]].
+    + destruct Hin as [Hin|[]]. congruence.
+    + rewrite Forall_forall in HF. exact (HF q Hq Hin).
+Qed.
+
+Lemma strip_sfree s : sfree s -> rstrip (lstrip s slash) slash = s.
+Proof.
+  intros [Hne Hf]. unfold slash.
+  rewrite lstrip_nonsep by (destruct s as [|x s]; [exact I|intros ->; apply Hf; left; reflexivity]).
+  destruct (exists_last Hne) as [s' [y ->]]. apply rstrip_nonsep.
+  intros ->. apply Hf. apply in_or_app. right. left. reflexivity.
+Qed.
+
+Lemma split_sfree s : cfree 47%N s -> split s slash = [s].
+Proof.
+  intros Hf. unfold split, slash. rewrite <- (app_nil_r s) at 2. rewrite <- Nat.add_1_r.
+  rewrite split_go_scan by exact Hf. rewrite split_go_nil. rewrite app_nil_r, rev_involutive. reflexivity.
+Qed.
+
+Lemma branch_sfree s : sfree s -> branch_of s = [s].
+Proof. intros H. unfold branch_of. rewrite strip_sfree by exact H. apply split_sfree. apply H. Qed.
+
+Lemma add_path_sfree root nodes s :
+  sfree s ->
+  add_path root nodes s = if str_eqb s root then Ret (add_id nodes [s], [s]) else Raise TreeError.
+Proof.
+  intros H. unfold add_path. destruct s as [|x s'] eqn:E; [destruct H; contradiction|]. rewrite <- E in *.
+  rewrite branch_sfree by exact H. cbn [hd]. destruct (str_eqb s root); reflexivity.
+Qed.
+
+Lemma add_paths_sfree root : forall ss nodes,
+  Forall sfree ss ->
+  (Forall (eq root) ss -> exists nodes', add_paths root nodes ss = Ret nodes') /\
+  (~ Forall (eq root) ss -> add_paths root nodes ss = Raise TreeError).
+Proof.
+  induction ss as [|s ss IH]; intros nodes HF.
+  - split; [intros _; exists nodes; reflexivity|]. intros H. exfalso. apply H. constructor.
+  - inversion HF as [|? ? Hs HF']; subst. cbn [add_paths]. rewrite add_path_sfree by exact Hs.
+    destruct (str_eqb s root) eqn:E.
+    + apply str_eqb_eq in E. subst s. destruct (IH (add_id nodes [root]) HF') as [I1 I2]. split.
+      * intros H. inversion H; subst. apply I1. assumption.
+      * intros H. apply I2. intros H'. apply H. constructor; [reflexivity|exact H'].
+    + split; [|reflexivity]. intros H. inversion H; subst. rewrite str_eqb_refl in E. discriminate.
+Qed.
+
+Lemma apply_changes_root root : forall chs nodes st0,
+  sfree root -> (forall ch, In ch chs -> fst ch = root) ->
+  exists r, apply_changes root nodes st0 chs = Ret r.
+Proof.
+  induction chs as [|[p kv] chs IH]; intros nodes st0 Hr H; [eexists; reflexivity|].
+  cbn [apply_changes]. assert (p = root) by (apply (H (p, kv)); left; reflexivity). subst p.
+  rewrite add_path_sfree by exact Hr. rewrite str_eqb_refl.
+  apply IH; [exact Hr|]. intros ch Hch. apply H. right. exact Hch.
+Qed.
+
+Lemma apply_renames_root sep root : forall ks nodes rs,
+  sfree root -> (forall k, In k ks -> k = root) ->
+  exists r, apply_renames sep root nodes rs ks = Ret r.
+Proof.
+  induction ks as [|k ks IH]; intros nodes rs Hr H; [eexists; reflexivity|].
+  cbn [apply_renames]. assert (k = root) by (apply H; left; reflexivity). subst k.
+  rewrite add_path_sfree by exact Hr. rewrite str_eqb_refl.
+  apply IH; [exact Hr|]. intros k Hk. apply H. right. exact Hk.
+Qed.
+
+Lemma changes_for_paths i a rows ch : In ch (changes_for i a rows) -> exists r, In r rows /\ jpath r = fst ch.
+Proof.
+  unfold changes_for. intros H. apply in_flat_map in H as [r [Hr H]].
+  destruct (_ && _ && _); [|contradiction]. destruct H as [<-|[]]. exists r. auto.
+Qed.
+
+Lemma changes_from_paths al rows ch : forall i,
+  In ch (changes_from i al rows) -> exists r, In r rows /\ jpath r = fst ch.
+Proof.
+  induction al as [|a al IH]; intros i H; [contradiction|].
+  cbn [changes_from] in H. apply in_app_or in H as [H|H]; [eapply changes_for_paths; exact H|eapply IH; exact H].
+Qed.
+
+(* on slash-free kept strings: None if there is none, TreeError iff two of them differ, a tree otherwise *)
+Lemma diff_of_rows_sfree sep rows od al :
+  (forall r, In r rows -> sfree (jpath r)) ->
+  let K := map jpath (filter (keep_row od (map fst (changes_from 0 al rows))) rows) in
+  (K = [] -> diff_of_rows sep rows od al = Ret None) /\
+  ((exists p q, In p K /\ In q K /\ p <> q) -> diff_of_rows sep rows od al = Raise TreeError) /\
+  (K <> [] -> (forall p q, In p K -> In q K -> p = q) -> exists l, diff_of_rows sep rows od al = Ret (Some l)).
+Proof.
+  intros Hfree K. unfold diff_of_rows. fold K.
+  assert (Hmem : forall r, In r rows -> memstr (jpath r) (map fst (changes_from 0 al rows)) = true -> In (jpath r) K).
+  { intros r Hr M. unfold K. apply in_map. apply filter_In. split; [exact Hr|].
+    unfold keep_row. rewrite M. apply orb_true_r. }
+  assert (HK : Forall sfree K).
+  { apply Forall_forall. intros s Hs. apply in_map_iff in Hs as [r [<- Hr]]. apply filter_In in Hr as [Hr _]. auto. }
+  clearbody K.
+  split; [intros ->; reflexivity|].
+  destruct K as [|k0 K']; [split; [intros [p [q [[] _]]]|intros H; contradiction]|].
+  cbv beta iota. set (KK := k0 :: K') in *.
+  assert (Hsp : map (fun p => rstrip (lstrip p slash) slash) KK = KK).
+  { rewrite <- (map_id KK) at 2. apply map_ext_in. intros s Hs. apply strip_sfree.
+    rewrite Forall_forall in HK. auto. }
+  assert (Hk0 : sfree k0) by (inversion HK; assumption).
+  assert (Hroot : hd [] (split (hd [] KK) slash) = k0).
+  { unfold KK. cbn [hd]. rewrite split_sfree by apply Hk0. reflexivity. }
+  unfold rebuild. rewrite Hsp, Hroot.
+  split.
+  - intros [p [q [Hp [Hq Hne]]]].
+    match goal with |- context [add_paths k0 ?n KK] => destruct (add_paths_sfree k0 KK n HK) as [A1 A2] end.
+    rewrite A2; [reflexivity|].
+    intros Hall. rewrite Forall_forall in Hall. rewrite <- (Hall p Hp), <- (Hall q Hq) in Hne. contradiction.
+  - intros _ Hsame.
+    match goal with |- context [add_paths k0 ?n KK] => destruct (add_paths_sfree k0 KK n HK) as [A1 A2] end.
+    destruct A1 as [nodes' E].
+    { apply Forall_forall. intros s Hs. apply Hsame; [left; reflexivity|exact Hs]. }
+    rewrite E.
+    assert (Hch : forall ch, In ch (changes_from 0 al rows) -> fst ch = k0).
+    { intros ch Hch. destruct (changes_from_paths al rows ch 0 Hch) as [r [Hr Er]].
+      symmetry. apply Hsame; [left; reflexivity|]. rewrite <- Er. apply Hmem; [exact Hr|].
+      apply memstr_in. rewrite Er. apply in_map. exact Hch. }
+    destruct (apply_changes_root k0 (changes_from 0 al rows) nodes' [] Hk0 Hch) as [[nodes1 st1] E1].
+    rewrite E1.
+    destruct (apply_renames_root sep k0 (sort_desc (map fst (changes_from 0 al rows))) nodes1 [] Hk0) as [[nodes2 rs] E2].
+    { intros k Hk. apply (proj1 (sort_desc_in _ _)) in Hk. apply in_map_iff in Hk as [ch [<- Hc]]. apply Hch. exact Hc. }
+    rewrite E2. eexists. reflexivity.
+Qed.
+
+Lemma table_from_paths sep al (t : tree) : forall pre r,
+  In r (table_from sep al pre t) -> exists p, In p (map fst (nodes_from pre t)) /\ rpath r = path_name sep p.
+Proof.
+  induction t as [g n a ks IH] using tree_ind'. intros pre r Hin.
+  cbn [table_from nodes_from map fst In] in *. destruct Hin as [<-|Hin].
+  - exists (pre ++ [n]). split; [left; reflexivity|reflexivity].
+  - induction ks as [|k ks IHk]; [contradiction|].
+    inversion IH as [|? ? Hk Hks]; subst. cbn [flat_map] in *. rewrite map_app.
+    apply in_app_or in Hin as [Hin|Hin].
+    + destruct (Hk _ _ Hin) as [p [Hp E]]. exists p. split; [right; apply in_or_app; left; exact Hp|exact E].
+    + destruct (IHk Hks Hin) as [p [[Hp|Hp] E]].
+      * exists p. split; [left; exact Hp|exact E].
+      * exists p. split; [right; apply in_or_app; right; exact Hp|exact E].
+Qed.
+
+Lemma merge_outer_paths nn d1 d2 r :
+  In r (merge_outer nn d1 d2) -> exists r', (In r' d1 \/ In r' d2) /\ jpath r = rpath r'.
+Proof.
+  unfold merge_outer. intros H. apply in_app_or in H as [H|H].
+  - apply in_flat_map in H as [r1 [H1 H]]. exists r1. split; [left; exact H1|].
+    destruct (filter (key_eqb r1) d2) as [|m ms].
+    + destruct H as [<-|[]]. reflexivity.
+    + apply in_map_iff in H as [r2 [<- _]]. reflexivity.
+  - apply in_map_iff in H as [r2 [<- H]]. apply filter_In in H as [H _]. exists r2. split; [right; exact H|reflexivity].
+Qed.
+
+Lemma name_ok_sep c n : name_ok [c] n = true -> n <> [] /\ cfree c n /\ cfree 47%N n.
+Proof.
+  unfold name_ok. intros H. apply andb_true_iff in H as [H H3]. apply andb_true_iff in H as [H1 H2].
+  apply negb_true_iff in H2, H3. split; [destruct n; discriminate|]. split; apply cfree_contains; assumption.
+Qed.
+
+Lemma marked_rows_sfree c t1 t2 al :
+  c <> 47%N -> domain_C15 [c] t1 t2 al = true ->
+  forall r, In r (marked_rows [c] al t1 t2) -> sfree (jpath r).
+Proof.
+  intros Hc Hdom r Hr. unfold domain_C15 in Hdom. repeat (apply andb_true_iff in Hdom as [Hdom ?]).
+  unfold marked_rows in Hr. apply in_map_iff in Hr as [r0 [<- Hr0]]. cbn [set_path jpath].
+  apply merge_outer_paths in Hr0 as [r' [Hr' ->]].
+  assert (G : forall t, forallb (name_ok [c]) (all_names t) = true -> In r' (table [c] al t) ->
+              exists p, rpath r' = path_name [c] p /\ p <> [] /\ Forall (cfree c) p /\ Forall (cfree 47%N) p).
+  { intros t Hn Hin. destruct (table_from_paths [c] al t [] r' Hin) as [p [Hp E]]. exists p. split; [exact E|].
+    split; [destruct (nodes_from_form t [] p Hp) as [x ->]; discriminate|].
+    rewrite forallb_forall in Hn.
+    split; apply Forall_forall; intros x Hx; apply (name_ok_sep c x); apply Hn; eapply nodes_of_names; eassumption. }
+  destruct Hr' as [Hr'|Hr']; [destruct (G t1) as [p [E [Hne [Fc Fs]]]]|destruct (G t2) as [p [E [Hne [Fc Fs]]]]];
+    try assumption; rewrite E; apply marked_sfree; assumption.
+Qed.
+
+Lemma all_same_or_not (K : list str) :
+  (exists p q, In p K /\ In q K /\ p <> q) \/ (forall p q, In p K -> In q K -> p = q).
+Proof.
+  destruct K as [|k0 K']; [right; intros p q []|].
+  destruct (Forall_dec (fun s => k0 = s) (fun s => list_eq_dec N.eq_dec k0 s) K') as [Hall|Hn].
+  - right. rewrite Forall_forall in Hall. intros p q [<-|Hp] [<-|Hq]; try reflexivity.
+    + apply Hall. exact Hq.
+    + symmetry. apply Hall. exact Hp.
+    + rewrite <- (Hall p Hp). apply Hall. exact Hq.
+  - left. apply neg_Forall_Exists_neg in Hn; [|intros s; apply (list_eq_dec N.eq_dec)].
+    apply Exists_exists in Hn as [s [Hs Hne]]. exists k0, s. split; [left; reflexivity|]. split; [right; exact Hs|exact Hne].
+Qed.
+
+(* K4-C15 as a theorem: with a one-character separator other than "/" (names free of it and of "/")
+   the call returns None when no row is kept, raises TreeError exactly when two kept rows differ, returns a
+   tree otherwise (one row: a single node named by the whole marked path), and never raises anything else *)
+Theorem sep_refused_iff c t1 t2 od al :
+  c <> 47%N -> domain_C15 [c] t1 t2 al = true ->
+  (get_tree_diff [c] t1 t2 od al = Raise TreeError <->
+   exists p q, In p (kept_paths [c] t1 t2 od al) /\ In q (kept_paths [c] t1 t2 od al) /\ p <> q) /\
+  (kept_paths [c] t1 t2 od al = [] <-> get_tree_diff [c] t1 t2 od al = Ret None) /\
+  (forall e, get_tree_diff [c] t1 t2 od al = Raise e -> e = TreeError).
+Proof.
+  intros Hc Hdom.
+  destruct (diff_of_rows_sfree [c] (marked_rows [c] al t1 t2) od al (marked_rows_sfree c t1 t2 al Hc Hdom))
+    as [D1 [D2 D3]].
+  fold (kept_paths [c] t1 t2 od al) in D1, D2, D3. fold (get_tree_diff [c] t1 t2 od al) in D1, D2, D3.
+  destruct (kept_paths [c] t1 t2 od al) as [|k0 K'] eqn:EK.
+  - rewrite (D1 eq_refl). split; [split; [discriminate|intros [p [q [[] _]]]]|]. split; [tauto|discriminate].
+  - destruct (all_same_or_not (k0 :: K')) as [Hd|Hs].
+    + rewrite (D2 Hd). split; [tauto|]. split; [split; discriminate|]. intros e E. inversion E. reflexivity.
+    + destruct (D3 ltac:(discriminate) Hs) as [l El]. rewrite El. split.
+      * split; [discriminate|]. intros [p [q [Hp [Hq Hne]]]]. exfalso. apply Hne. apply Hs; assumption.
+      * split; [split; discriminate|discriminate].
+Qed.
